@@ -294,6 +294,36 @@ def check_arity_and_rejections(ctx, br, top, rest, guard, final, loops):
     ok = any(isinstance(n, ast.Assign) and norm(n) == "argv = argv + extra" for n in f.body) and f.body.index(loops[0]) < f.body.index(loops[1])
     ctx.ob("C13.5", site, ok, "config tokens are appended to argv before the single parsing loop", msg="argv = argv + extra before the option loop is gone")
     ctx.ob("C13.5", site, "split()" in norm(cfg), "config files are split on whitespace into tokens", msg="config tokenisation changed")
+    # by value: what is added to `extra` is the whitespace split of the RAW line of the file (a '#', a quote or a comma inside a value is
+    # part of the value, exactly as on the command line)
+    inner = [n for n in ast.walk(cfg) if isinstance(n, ast.For)]
+    decided = False
+    for lp in inner:
+        ev2 = symeval.Evaluator(m)
+        ev2.loop_mode = "body_once"
+        ev2.merge_ifs = True
+        ev2.record = True
+        try:
+            env = {n_.id: Rat.sym(n_.id) for n_ in ast.walk(lp.iter) if isinstance(n_, ast.Name)}
+            env["extra"] = Rat.sym("extra")
+            ev2.run_stmts([lp], env=env)
+        except (symeval.Undecided, AnalysisError):
+            continue
+        adds = [e for e in ev2.events if e["kind"] == "inplace" and e.get("name") == "extra"] + \
+               [e for e in ev2.events if e["kind"] == "call" and (e.get("name") or "").endswith("extra.extend")]
+        for e in adds:
+            op = e.get("operand") if e["kind"] == "inplace" else (e["args"][0] if e["args"] else None)
+            if not isinstance(op, Rat):
+                continue
+            decided = True
+            at = op.as_atom("m:split")
+            recv = at.args[0] if at is not None and len(at.args) == 1 and isinstance(at.args[0], Rat) else None
+            ra = recv.as_atom() if recv is not None else None
+            ok = ra is not None and ra.func.startswith("elem") and len(ra.args) == 1
+            ctx.ob("C13.5", site, ok, "config tokens are line.split() of the raw line of the file", loc=prog.loc(m, e["node"]),
+                   msg="the tokens read from a --config file are %s, not the whitespace split of the raw line: a value containing the cut / replaced "
+                       "characters means something else in a config file than on the command line" % str(op)[:120])
+    ctx.need(decided, "%s: the statement that adds the tokens of a --config file to `extra` was not found" % site)
 
 
 def check_parse_numbers(ctx):
